@@ -617,8 +617,8 @@ def site_info(case, r):
         else:
             th = quat_angle(x[..., U.QSL[g]])
             xi = None
-        if g == "SE3" or bool(((th > eps) & (th < 1e-3)).any()):
-            band = True
+        if g == "SE3" or kind == "Jinvp" or bool(((th > eps) & (th < 1e-3)).any()):
+            band = True          # Jinvp: autograd differentiates the closed form of so3_Jl_inv, which cancels like eps/theta^2
         if g == "Sim3":
             if xi is None:
                 with torch.no_grad():
@@ -741,10 +741,14 @@ def compare_grads(case, r, M, band):
         got = [[0.0] * tdim(ty) for _ in want] if got is None else got.reshape(-1, tdim(ty)).tolist()
         sc = row_scales(case, M, li, len(want), bw)
         fl = ulp_floor(r, li, len(want), tdim(ty))
+        # Jinvp: the model's stand-in for PyTorch's autograd of *_Jl_inv (192-bit central differences, step 2^-64) is good to
+        # 2^-60 of the largest entry of D only — a block far below the others cannot be resolved by it
+        jv = 1e-15 if any(o == "Jinvp" for o, _ in prog_ops(from_json(case["prog"]))) else 0.0
         for i, (gr, wr) in enumerate(zip(got, want)):
+            rowmax = max((s2 for _, s2 in sc[i]), default=0.0) if jv else 0.0
             for (lo, hi), s_ in sc[i]:
                 err = max((abs(a - b) for a, b in zip(gr[lo:hi], wr[lo:hi])), default=0.0)
-                f_ = max(fl[i][lo:hi], default=0.0)
+                f_ = max(fl[i][lo:hi], default=0.0) + jv * rowmax
                 if s_ > 0:
                     worst = max(worst, err / (s_ * t + f_))
                 if not (err <= t * s_ + f_):
@@ -762,6 +766,10 @@ def compare_oracle(case, r, M, band, trunc):
     nb = int(math.prod(bshape))
     t = tol_rel(case["dtype"], band) + 30 * trunc
     bw = bool(case.get("blockwise"))
+    # largest operand magnitude per batch item (not per case: one extreme item must not loosen the others)
+    flat_vals = [torch.tensor(v, dtype=torch.float64).reshape(-1, tdim(t_)).abs().amax(dim=-1).tolist() if torch.tensor(v).numel() else []
+                 for v, t_ in zip(case["values"], ltypes)]
+    vmax_item = [max((fv[item_index(bshape, tuple(ls), b)] for fv, ls in zip(flat_vals, case["lshapes"]) if fv), default=0.0) for b in range(nb)]
     bad, nchk, nskip = [], 0, 0
     for li, ty in enumerate(ltypes):
         rows = [M["fd"][b][li] for b in range(nb)]
@@ -776,6 +784,14 @@ def compare_oracle(case, r, M, band, trunc):
         got = [[0.0] * tdim(ty) for _ in want] if got is None else got.reshape(-1, tdim(ty)).tolist()
         sc = row_scales(case, M, li, len(want), bw)
         fl = ulp_floor(r, li, len(want), tdim(ty))
+        # artefacts of the difference quotient far below the precision of either dtype (1e-20 of cotangent x operand magnitude)
+        # are not differences of Jacobians
+        cm_ = leaf_cmax(case, M, li)
+        vm_ = [0.0] * len(cm_)
+        for b in range(nb):
+            i_ = item_index(bshape, lsh, b)
+            vm_[i_] = max(vm_[i_], vmax_item[b])
+        fl = [[v + 1e-20 * cm_[i] * (1.0 + vm_[i]) for v in row] for i, row in enumerate(fl)]
         nchk += 1
         for i, (gr, wr, br) in enumerate(zip(got, want, bars)):
             for (lo, hi), s_ in sc[i]:
@@ -1207,14 +1223,24 @@ def corpus_items(ty, dtype, kind, n):
     (Log / Jinvp keep away from pi, Jinvp from 0)"""
     eps = common.EPS[dtype]
     se = math.sqrt(eps)
-    g_ang = [0.0, 1e-30, eps / 2, eps * (1 - 2 ** -10), eps * (1 + 2 ** -10), 2 * eps, 1e-12, se, 1e-4, 0.04, 0.06, 1.0, 2.2,
-             math.pi - 0.31]
+    up, dn = (lambda v: math.nextafter(v, math.inf)), (lambda v: math.nextafter(v, -math.inf))
+    if dtype == "float32":
+        import numpy as _np
+        up = lambda v: float(_np.nextafter(_np.float32(v), _np.float32(_np.inf)))
+        dn = lambda v: float(_np.nextafter(_np.float32(v), _np.float32(-_np.inf)))
+    # every regime and every threshold (eps for so3_Jl / so3_Jl_inv / SO3_Log / rxso3_Ws, 0.05 for calcQ) with neighbours of either
+    # sign; the most different regimes come first so that a short batch already mixes them
+    g_ang = [0.0, 1.0, eps * (1 + 2 ** -10), 1e-30, math.pi - 0.31, eps * (1 - 2 ** -10), 0.06, se, 0.04, 2.2, eps, 0.05, 2 * eps, 1e-4,
+             eps / 2, 1e-12, up(eps), dn(0.05), up(0.05), dn(eps)]
     if kind == "Jinvp":
-        g_ang = [2e-3, 1e-2, 0.04, 0.06, 0.5, 1.0, 2.2, math.pi - 0.31]
+        g_ang = [2e-3, 1.0, 0.04, math.pi - 0.31, 0.06, 1e-2, 0.5, 2.2, 0.05, dn(0.05), up(0.05)]
     if kind not in ("Log", "Jinvp"):
-        g_ang = g_ang + [math.pi - 1e-6, math.pi]
-    a_ang = [0.0, 1e-30, eps / 2, eps * (1 - 2 ** -10), eps * (1 + 2 ** -10), 2 * eps, 1e-12, se, 1e-4, 0.04, 0.0500001, 0.06, 1.0,
-             3.0, 3.5, 6.0, 6.4]
+        g_ang = g_ang[:9] + [math.pi, math.pi - 1e-6] + g_ang[9:]
+    a_ang = [0.0, 1.0, eps * (1 + 2 ** -10), 3.5, 1e-30, eps * (1 - 2 ** -10), 0.06, 6.4, se, 0.04, 3.0, eps, 0.05, 2 * eps, 1e-4, eps / 2, 6.0,
+             1e-12, up(eps), dn(0.05), up(0.05), dn(eps), 0.0500001]
+    if dtype == "float32":          # the two dtypes walk through the lists from different starting points
+        g_ang = g_ang[5:] + g_ang[:5]
+        a_ang = a_ang[5:] + a_ang[:5]
     trans = [0.0, 1.0, 1e6, 1e-8, 1e3, 3.0, 0.25, 1e-30]
     lscale = [0.0, -40.0, 0.7, 40.0, -0.7, 1e-30, -12.0, -eps / 2, 12.0, eps * (1 + 2 ** -10), 1e-8, -1e-3]
     pts = [1.0, 0.0, 1e6, 1e-8, 2.5, 1e-30, 1e3]
@@ -1670,13 +1696,15 @@ def run_views(ctx: Ctx):
 def run(ctx: Ctx):
     torch.set_num_threads(max(1, min(4, int(os.environ.get("OMP_NUM_THREADS", "4")))))
     # deterministic part first: identical for every seed
-    run_corpus(ctx, n_items=ctx.pick(10, 17), dtypes=("float64", "float32"), fd_every=ctx.pick(3, 1))
+    from . import util_autograd_h2 as H2
+    H2.run_all(ctx)            # pass 2: interleavings, argument combinations, error paths, grad modes, duck types, copies, memory, sizes
+    run_corpus(ctx, n_items=ctx.pick(10, 24), dtypes=("float64", "float32"), fd_every=ctx.pick(3, 1))
     run_reuse(ctx)
     run_stale(ctx)
     run_views(ctx)
     # seeded part
     run_local(ctx, ctx.pick(1, 8))
-    run_prog(ctx, ctx.pick(110, 1700))
+    run_prog(ctx, ctx.pick(80, 1600))
     run_routes(ctx, ctx.pick(16, 240))
 
 
